@@ -83,6 +83,31 @@ theorem reconnect_processSotw (gen : Gen) (v : Srv) (t : Ty) (names : List Strin
     if_false, pushSotw, hgen, hok]
   exact ⟨_, rfl⟩
 
+/-- **What "answered" means when the generator has nothing to say.**  The handler theorems above and below assume
+    a non-nil generator result.  When `Generate` returns nil (SDS for a proxy that is served no secret, NDS for a
+    proxy kind without a name table, ...) `pushXds` sends NOTHING - on the first request of a reconnected stream
+    exactly as on the first request of a brand-new proxy (the server cannot tell them apart: the state is fresh and
+    the decision does not read the nonce).  The watch IS created, so the type is served as soon as the generator
+    has a result.  What the proxy retained for that type is not touched: it is in the position of a brand-new
+    proxy plus its retained copy. -/
+theorem reconnect_nil_generator_silent (gen : Gen) (v : Srv) (t : Ty) (names : List String) (oldNonce : String)
+    (err : Option String)
+    (hfresh : v.st t = none) (hsub : (names.isEmpty && !t.wildcard) = false)
+    (hnil : (gen t names).resNil = true) :
+    ∃ v', processSotw gen v { ty := t, names := names, nonce := oldNonce, err := err } = some (v', []) ∧
+      (v'.st t).isSome = true ∧
+      processSotw gen v { ty := t, names := names, nonce := "", err := none } = some (v', []) := by
+  have h1 := reconnect_request_answered_sotw v.st t names oldNonce err hfresh hsub
+  have h2 := reconnect_request_answered_sotw v.st t names "" none hfresh hsub
+  refine ⟨{ v with st := newWatched v.st t names }, ?_, ?_, ?_⟩
+  · unfold processSotw
+    rw [h1]
+    simp [pushSotwOne, newWatched_self, narrowedSotw, pushSotw, hnil]
+  · simp [newWatched_self]
+  · unfold processSotw
+    rw [h2]
+    simp [pushSotwOne, newWatched_self, narrowedSotw, pushSotw, hnil]
+
 /-! ## SotW after EDS-before-CDS: the EDS request that follows CDS is answered (warming) -/
 
 /-- A reconnecting Envoy may send EDS before CDS.  When the CDS request then creates its watch,
